@@ -68,8 +68,10 @@ def status_of(o):
     return 'fail', run['out']
 
 
-def source_record(i, ast, status, out, mode='holder', wantshapes=False):
-    return {'id': i, 'ast': number(ast), 'names': names_of(ast), 'mode': mode, 'status': status, 'out': out, 'wantshapes': wantshapes}
+def source_record(i, ast, status, out, mode='holder', wantshapes=False, proc=None):
+    """proc = None (in-process observation) or {'errempty': bool} for a command-line observation"""
+    return {'id': i, 'ast': number(ast), 'names': names_of(ast), 'mode': mode, 'status': status, 'out': out, 'wantshapes': wantshapes,
+            'hasproc': proc is not None, 'errempty': bool(proc['errempty']) if proc else True}
 
 
 def validate(records, workdir, tag='src', per_batch=120, jvms=4, workers=4, budget=20000, timeout=1800):
